@@ -87,3 +87,37 @@ Proof.
   - split; [repeat constructor; assumption|]. left. reflexivity.
   - split; [constructor|]. right. exists 120, []. split; [reflexivity|]. split; [reflexivity|]. split; [discriminate|]. intros x [].
 Qed.
+
+(* ---- tabs behind a block quote marker ----------------------------------------------------------- *)
+From MD Require Import Model.Block Lemmas.QuoteLemmas Lemmas.QuoteCols.
+
+(* the row the quote rule writes for  '>' ws (non-blank | end of line),  ws a non-empty run of spaces
+   and tabs, with the marker in real column R = bsCount + sCount: the new sCount is the column the
+   blanks reach (tab stops every four real columns) minus R + 2, the new bsCount is R + 2 - whether the
+   first blank is a space, a tab one column wide, or a wider tab that the rule splits *)
+Theorem C17_quote_marker_blanks_are_columns :
+  forall src pos0 mx sc bs ws,
+  0 <= pos0 -> 0 <= bs + sc -> ws <> [] -> Forall blank ws -> chars_at src (pos0 + 1) ws ->
+  stop_at src (pos0 + 1 + len ws) mx -> pos0 + 1 + len ws <= mx -> mx <= len src ->
+  exists q, bq_strip src pos0 mx sc bs = Ok q
+    /\ q_sCount q = cols (bs + sc + 1) ws - (bs + sc + 2)
+    /\ q_bsCount q = bs + sc + 2
+    /\ q_bMark q + q_tShift q = pos0 + 1 + len ws
+    /\ q_empty q = (mx <=? pos0 + 1 + len ws).
+Proof. exact bq_strip_columns. Qed.
+Print Assumptions C17_quote_marker_blanks_are_columns.
+
+(* hence two spellings of those blanks that reach the same column - a run with tabs and its
+   expansion to spaces (C17_tab_expansion_keeps_columns) - give the same row for every later rule *)
+Theorem C17_quote_marker_respelling :
+  forall src1 src2 p1 p2 mx1 mx2 sc bs ws1 ws2 q1 q2,
+  0 <= p1 -> 0 <= p2 -> 0 <= bs + sc -> ws1 <> [] -> ws2 <> [] -> Forall blank ws1 -> Forall blank ws2 ->
+  chars_at src1 (p1 + 1) ws1 -> chars_at src2 (p2 + 1) ws2 ->
+  stop_at src1 (p1 + 1 + len ws1) mx1 -> stop_at src2 (p2 + 1 + len ws2) mx2 ->
+  p1 + 1 + len ws1 <= mx1 -> p2 + 1 + len ws2 <= mx2 -> mx1 <= len src1 -> mx2 <= len src2 ->
+  cols (bs + sc + 1) ws1 = cols (bs + sc + 1) ws2 ->
+  (mx1 <=? p1 + 1 + len ws1) = (mx2 <=? p2 + 1 + len ws2) ->
+  bq_strip src1 p1 mx1 sc bs = Ok q1 -> bq_strip src2 p2 mx2 sc bs = Ok q2 ->
+  q_sCount q1 = q_sCount q2 /\ q_bsCount q1 = q_bsCount q2 /\ q_empty q1 = q_empty q2.
+Proof. exact bq_strip_respelling. Qed.
+Print Assumptions C17_quote_marker_respelling.
